@@ -29,6 +29,8 @@ Definition dispatch (cmd : string) (input : string) : string :=
   | "codegen-x86" => run_codegen_x86 input
   | "heap-x86" => run_heap_x86 input
   | "wf-x86" => run_wf_x86 input
+  | "wf-a64" => run_wf_a64 input
+  | "wf-rv" => run_wf_rv input
   | "show-x86" => run_show_x86 input
   | "c10-x86" => run_c10_x86 input
   | "stages" => run_stages input
